@@ -6,7 +6,10 @@ import facts
 prop, root = sys.argv[1], sys.argv[2]
 mx = int(sys.argv[3]) if len(sys.argv) > 3 else 60
 m = importlib.import_module(prop.lower())
-h = m.build()
+try:
+    h = m.build()
+except TypeError:
+    h = m.build("quick")
 S, inv, meta = facts.extract(prop, h.src())
 r = S.roots.get(root)
 if r is None:
